@@ -321,7 +321,7 @@ def run(ctx):
                 "environments, traced with strace; distinct = scenario")
     ctx.assumptions = ["reference evaluator for the reached sequence", "starting points spelled without '..' or '/.'", "strace as execve recorder"]
     nw = common.NCPU
-    n = ctx.scale(480, 12000)
+    n = ctx.scale(480, 96000)
     ctx.pmap(small_worker, [(k, n // nw, ctx.seed) for k in range(nw)])
     big = [
         (0, 6000, 200, 512 * KIB, 1, "-exec", ctx.seed, False),
